@@ -528,6 +528,9 @@ def r09_10(prog: Program, rep: Report, rule="R09.10"):
                 reuse_seen = True
                 is_proxy = lambda g: proxy is not None and T.is_call_to(g, "builtins.isinstance") and T.refname(g[2][1]) == proxy.qualname  # noqa: E731
                 ok = any((g == cyc and pol) or (is_proxy(g) and not pol) for g, pol in gs) or any(pol and g[0] == "boolop" and g[1] == "or" and all(x == cyc or (x[0] == "not" and is_proxy(x[1])) for x in g[2]) for g, pol in gs)
+                # (De Morgan: `is_stand_in = not node.cyclic and isinstance(known, Proxy)`; `if not is_stand_in: return known`)
+                if not ok and any((not pol) and g[0] == "boolop" and g[1] == "and" and all(x == ("not", cyc) or is_proxy(x) for x in g[2]) for g, pol in gs):
+                    ok = True
                 if not ok:
                     reuse_ok = False
         rep.check(lazy, rule, disp.qualname, disp.loc, f"{d}: a cyclic-flagged node that is not built yet gets the lazy proxy", f"{d}: a node flagged cyclic is dispatched like any other: the routine of a revisited generic is built at once from a context that does not hold its members yet (KeyError), or the stand-in is never created", detail=f"{d}-deferred-lazy")
